@@ -39,6 +39,7 @@ pub fn prop() -> HistProp {
         thorough: 40000,
         mk: |_, _, _| Box::new(C09 { probes: 0, nontrivial: false, seen_states: Default::default() }),
         extra: None,
+        many_batches: 3,
     }
 }
 
@@ -195,6 +196,30 @@ impl Checker for C09 {
                         format!("{}: with swap/oracle stubs {:?} the same operation gives {} and {} state", step.desc(), sm, match &s2.res { Ok(_) => "ok".to_string(), Err(e) => format!("ERR {}", e) }, if w.same_state(cx.post) { "the same" } else { "a different" }),
                     ));
                     return;
+                }
+            }
+        }
+        // ---------------- withdrawals of the history itself: with released claims worth >= 1 unit they must succeed
+        if let ROp::Withdraw { user: u } = &step.rop {
+            let val = released_value_of(o0, u);
+            if !o0.params.paused.unwrap_or(false) {
+                if val >= 1 {
+                    out.count("withdrawals_with_released_claims", 1);
+                    if !step.ok() {
+                        out.fail(v(
+                            "withdraw-fails-with-released-claims",
+                            format!("{}: {} holds released claims worth {} ({:?}) but WithdrawUnbonded fails", step.desc(), u, val, o0.reqs(u)),
+                        ));
+                        return;
+                    }
+                    let paid = bank_sent(step.evs(), HUB, u, USEI);
+                    if paid < val {
+                        out.fail(v(
+                            "withdraw-pays-less-than-released-claims",
+                            format!("{}: {} holds released claims worth {} ({:?}) but was paid {}", step.desc(), u, val, o0.reqs(u), paid),
+                        ));
+                        return;
+                    }
                 }
             }
         }
